@@ -21,6 +21,22 @@ CHECKS = {
  'C07': ('round-trip and file-description oracles over generated models (odd names, ids, extras, removals) x {json,yml,yaml}; generated hand-written files',
          'No counter-example in N random models x formats and N generated hand-written files; typed attribute comparison.',
          'Compares typed attribute state (mtv/modelstate.py), not the dict form; metadata other than the name is ignored.', '5/C07'),
+ 'C08': ('exhaustive enumeration of all <=2-node graphs (full alphabet) and 3-node graphs (reduced alphabet) under all node orders + Hypothesis-generated larger graphs and generated language/model graphs, against a reference greatest-fixed-point computation',
+         'Complete for the enumerated small graphs (thorough tier: all 262144 three-node graphs x 6 orders); random exploration beyond.',
+         'Trusts the reference Kleene iteration in mtv/aggen.py:ref_apriori; TTC arithmetic trees are not generated on gated positions.', '5/C08'),
+ 'C09': ('model-based testing: operation histories on AttackGraph with structural invariants I1-I4 after every step; bounded-exhaustive short histories + random long ones',
+         'All histories of length <=3 (quick) / <=4 (thorough) over a 14-operation alphabet on a fixed graph are enumerated; longer histories random.',
+         'Re-using a live id may raise or not as long as the invariants hold; private index dicts are observed only through the public lookups.', '5/C09'),
+ 'C10': ('round-trip oracle over attack graphs produced by generated histories x {json,yml} x {model given, absent}; typed attribute comparison',
+         'No counter-example in N random graphs; exploration.', 'Edges are compared as sets (multiplicity is not claimed).', '5/C10'),
+ 'C11': ('model-based testing: compromise / undo / attach / add / remove histories against a reference relation attackers x nodes',
+         'No counter-example in N random histories; exploration.', 'Attackers identified by object identity.', '5/C11'),
+ 'C12': ('definitional reference for traversability / surfaces, incremental-vs-recomputed metamorphic relation, purity by snapshot; exhaustive 3-node graphs x compromise subsets + random graphs with compromise batches',
+         'Complete for the enumerated 3-node space in the thorough tier; random exploration beyond.', 'Edges are mirrored, as in every graph the toolbox produces.', '5/C12'),
+ 'C13': ('exact-set oracle for pruning over exhaustive labelled 3-node graphs and random labelled / analysed graphs, plus C09 structural invariants',
+         'Complete for the enumerated 3-node space in the thorough tier; random exploration beyond.', 'none beyond the C09 invariants helper', '5/C13'),
+ 'C14': ('deepcopy equality + identity-based sharing scan + behavioural independence under generated mutation sequences on either side',
+         'No counter-example in N random graphs x mutation sequences; exploration.', 'node.attributes (language-level step definition) is treated as language data.', '5/C14'),
 }
 NOT_APPLICABLE = {}
 
